@@ -7,7 +7,7 @@ import os
 import subprocess
 import time
 
-from . import launch_gen, spawn_scen
+from . import launch_gen, path_gen, spawn_scen
 from .common import (run_harness, BIN, ToolError, build_harness, finish, load_findings, log, save_replay, tlc_mc,
                      validate_sharded, workdir, write_evidence, WORK)
 
@@ -75,6 +75,17 @@ def run(pid, tier, seed, replay=None):
             log("[mc] MC_Launch.cfg: %d distinct states, ok=%s (%.1fs)" % (r["distinct"], r["ok"], r["wall_s"]))
             gen = launch_gen.generate()
             log("[gen] %d launches from the %d failure plans of Launch.tla" % (len(gen), len({json.dumps(g["model"], sort_keys=True) + str(g["detached"]) + str(g.get("fault", {}).get("errno")) for g in gen})))
+            scs = scs + gen
+        if pid == "C15":
+            # the PATH search itself (PathSearch.tla): model-checked over every PATH shape, and every shape replayed on a
+            # real directory tree
+            cfgp = "MC_PathSearch_t.cfg" if tier == "thorough" else "MC_PathSearch.cfg"
+            r = tlc_mc("PathSearch.tla", cfgp, "C15_PathSearch", workers=4)
+            mc.append({k: r[k] for k in ("cfg", "states", "distinct", "ok", "error", "wall_s")})
+            log("[mc] %s: %d distinct states, ok=%s (%.1fs)" % (cfgp, r["distinct"], r["ok"], r["wall_s"]))
+            shapes = path_gen.generate()
+            gen = path_gen.scenarios(spawn_scen.PathMaker("pathgen", "g"), shapes, every=1 if tier == "thorough" else 2)
+            log("[gen] %d launches from the %d PATH shapes of PathSearch.tla" % (len(gen), len(shapes)))
             scs = scs + gen
         for cfg in {"C05": ["MC_Spawn_1.cfg"], "C07": ["MC_Spawn_1.cfg", "MC_Spawn_2a.cfg"], "C08": ["MC_Spawn_2a.cfg"]}.get(pid, []):
             r = tlc_mc("MCSpawn.tla", cfg, "%s_%s" % (pid, cfg[:-4]), workers=8)
@@ -225,6 +236,22 @@ def run(pid, tier, seed, replay=None):
                 "(first: %s: %s) -- informational, the verdict comes from the monitors" % (len(drift), same + len(drift), drift[0]["launch"], drift[0]["difference"]))
         else:
             log("[gen] all %d replayed behaviours of Launch.tla ended as the model predicts" % same)
+    if pid == "C15" and replay is None:
+        same, drift = 0, []
+        for sid, sc in by_id.items():
+            if "model" in sc and sid in blk:
+                d = path_gen.compare(sc, blk[sid])
+                if d is None:
+                    same += 1
+                else:
+                    drift.append({"launch": sid, "difference": d})
+        refinement = {"behaviours_of_PathSearch_tla_replayed": same + len(drift), "same_outcome_as_model": same,
+                      "drift_examples": drift[:5]}
+        if drift:
+            log("MODEL-DRIFT property=C15: %d of %d replayed PATH shapes of PathSearch.tla ended otherwise than the model predicts "
+                "(first: %s: %s) -- informational, the verdict comes from the monitors" % (len(drift), same + len(drift), drift[0]["launch"], drift[0]["difference"]))
+        else:
+            log("[gen] all %d replayed PATH shapes of PathSearch.tla ended as the model predicts" % same)
     samples = [{"scenario": by_id[i], "trace_head": [json.loads(x) for x in blk[i][1:10]]} for i in list(blk)[:2]]
     cov = {
         "states": max(1, sum(m["distinct"] for m in mc) + tv_states),
